@@ -225,6 +225,8 @@ func anchorOrigin(ao int) interface{} {
 		// ... and a number that Go and ECMAScript write differently (2.5e-07 / 2.5e-7)
 		// ... a minus zero, and control characters whose escapes contain hexadecimal letters
 		return map[string]interface{}{"o": ao - 100, "\ufb01": 1, "\U0001f600": 2.5e-7, "z": math.Copysign(0, -1),
+			// (the boundaries of the number formats: 1e-6 and 1e21 are the first values written the other way)
+			"b": []interface{}{1e-6, 1e-7, 1e21, 1e20, 999999999999999900000.0, 295147905179352830000.0, 1.5e-6},
 			// (a run of one control character that differs from origin to origin)
 			"c\x0b\x1f": "\x0e\x1a\x1b\x7f\x01" + strings.Repeat(string(rune(1+ao%7)), 30)}
 	default:
